@@ -48,7 +48,7 @@ extern unsigned hm_nfinal;
 size_t hm_ctx_len(const void *ctx);   /* acc model: bytes absorbed so far by a running context */
 
 /* ---- padalloc.c ------------------------------------------------------------------------- */
-extern size_t pa_lsize[1024]; extern unsigned char pa_managed[1024]; extern int pa_over; extern unsigned pa_nrealloc;
+extern size_t pa_lsize[]; extern unsigned char pa_managed[]; extern int pa_over; extern unsigned pa_nrealloc;
 size_t pa_size_of(const void *p); int pa_is_managed(const void *p);
 
 /* ---- zstd stub --------------------------------------------------------------------------- */
